@@ -18,8 +18,9 @@ pub enum Op {
     Extend(usize),
     ExtendEmpty,
     Crash { fmt: Fmt, chan: Chan },
-    /// an extension that must be refused: a link that does not follow the path end / the dummy link 0
-    ExtendBad { link: u32 },
+    /// an extension that must be refused: the next `with_legal` links of the route followed, in the same
+    /// call, by a link that does not continue them (or the dummy link 0)
+    ExtendBad { link: u32, #[serde(default)] with_legal: usize },
 }
 
 #[derive(Serialize, Deserialize, Clone, Debug)]
@@ -107,9 +108,12 @@ pub fn generate(rng: &mut Rng, focus: &str, _thorough: bool) -> Case {
         ops.push(Op::Extend(k));
         left -= k;
     }
-    if rng.chance(0.15) {
+    if rng.chance(0.25) {
         let bad = if rng.chance(0.3) { 0 } else { rng.usize(1, links.len() - 1) as u32 };
-        ops.push(Op::ExtendBad { link: bad });
+        let op = Op::ExtendBad { link: bad, with_legal: rng.usize(0, 2) };
+        // anywhere in the history, in particular as the very first call on a fresh path
+        let pos = if rng.chance(0.4) { 0 } else { rng.usize(0, ops.len()) };
+        ops.insert(pos, op);
     }
     if rng.chance(0.2) {
         ops.push(Op::Crash { fmt: *rng.pick(&[Fmt::Yaml, Fmt::Bin, Fmt::Json]), chan: Chan::Str });
@@ -396,22 +400,32 @@ pub fn execute(case: &Case, ctx: &mut Ctx) {
                     }
                 }
             }
-            Op::ExtendBad { link } => {
+            Op::ExtendBad { link, with_legal } => {
                 ctx.layer = "path.extend";
-                // refused unless it happens to be a legal continuation
-                let legal = *link != 0 && (done == 0 || {
-                    let l = &links[*link as usize];
-                    let last = route[done - 1] as u32;
-                    l.idx_prev == LinkIdx::new(last) || l.idx_prev_alt == LinkIdx::new(last)
-                });
+                let k = (*with_legal).min(route.len() - done);
+                // refused unless the link happens to be a legal continuation of what precedes it
+                let prev: Option<u32> = if k > 0 { Some(route[done + k - 1] as u32) } else if done > 0 { Some(route[done - 1] as u32) } else { None };
+                let legal = *link != 0
+                    && match prev {
+                        None => true,
+                        Some(last) => {
+                            let l = &links[*link as usize];
+                            l.idx_prev == LinkIdx::new(last) || l.idx_prev_alt == LinkIdx::new(last)
+                        }
+                    };
                 if legal {
                     continue;
                 }
                 let mut q = p.clone();
-                let r = q.extend(links, [LinkIdx::new(*link)]);
+                let mut ext: Vec<LinkIdx> = lroute[done..done + k].to_vec();
+                ext.push(LinkIdx::new(*link));
+                let r = q.extend(links, &ext);
                 ctx.hit("fault.extend.non_contiguous_or_unreal");
+                if done == 0 && k > 0 {
+                    ctx.hit("probe.extend.bad_link_in_first_call_on_fresh_path");
+                }
                 if r.is_ok() {
-                    ctx.violate("C06", "geometry", "non-contiguous route is rejected", format!("extend with link {link} after {:?} accepted", &route[..done]));
+                    ctx.violate("C06", "geometry", "non-contiguous route is rejected", format!("extend with {:?} after {:?} accepted", ext.iter().map(|x| x.idx()).collect::<Vec<_>>(), &route[..done]));
                 }
                 // nothing is promised about the partially extended object after such an error: discard it
             }
